@@ -26,3 +26,20 @@ Example C11_example :
   = [OutProcess (mkOut false ErrOther None); OutDbg None; OutProcess (mkOut false ErrNone (Some DMissing)); OutDbg (Some DMissing);
      OutReset; OutDbg None; OutProcess (mkOut true ErrNone None)].
 Proof. vm_compute. reflexivity. Qed.
+
+(* the caller changes its object in place between calls: the evaluator answers - also LastDebugErr, read after the change - as in the
+   plain history in which every Process carries the object of its own moment *)
+Theorem C11_caller_changes :
+  forall lower ops ev cur, wrun lower ev cur ops = erun lower ev (at_call_time cur ops).
+Proof. exact c11_caller_changes. Qed.
+Theorem C11_dbg_after_change :
+  forall lower ev o o', wrun lower ev o [CProcess; CChange o'; CLastDebugErr]
+                        = [OutProcess (snd (process lower ev o)); OutDbg (o_dbg (snd (process lower ev o)))].
+Proof. exact c11_dbg_after_change. Qed.
+Print Assumptions C11_caller_changes.
+Print Assumptions C11_dbg_after_change.
+Example C11_example_change :
+  let rule := [120;32;101;113;32;49]%N in   (* x eq 1 *)
+  wrun go_lower (new_evaluator rule) [] [CProcess; CChange [([120]%N, GInt 1)]; CLastDebugErr; CProcess; CLastDebugErr]
+  = [OutProcess (mkOut false ErrNone (Some DMissing)); OutDbg (Some DMissing); OutProcess (mkOut true ErrNone None); OutDbg None].
+Proof. vm_compute. reflexivity. Qed.
